@@ -96,6 +96,8 @@ SPEC_NAMES = {
     "wsgi_body",
     "at_iter_start",
     "bridge_waits",
+    "h2_window",
+    "h2_max_frame",
 }
 
 
@@ -754,6 +756,19 @@ class SpecMixin:
             if isinstance(x, tuple) and isinstance(x[0], str) and x[0].endswith(name) and idx < 0:
                 idx = i
         return idx
+
+    def sp_h2_window(self, e, fr):
+        """h2_window(conn, stream_id): what h2 reports as local_flow_control_window for a known
+        stream -- the smaller of the stream's and the connection's send window (M_h2)"""
+        conn = self.ev(e.args[0], fr)
+        sid = z3_of_int(self.ev(e.args[1], fr))
+        w = z3.Select(conn.fields["win"], sid)
+        c = conn.fields["cwin"]
+        return mk_int(z3.If(c < w, c, w))
+
+    def sp_h2_max_frame(self, e, fr):
+        conn = self.ev(e.args[0], fr)
+        return mk_int(conn.fields["mfs"])
 
     def sp_bridge_waits(self, e, fr):
         """bridge_waits(call_soon): calling call_soon(f, x) from the worker thread returns only
